@@ -346,14 +346,21 @@ def run(ctx):
         for h, tails in b.loops().items():
             n_loops += 1
             t = b.blocks[h]["term"]
-            driven = t["k"] == "call" and callee_name(t).endswith("::next") and any(x in t["args"][0]["place"]["ty"] for x in
-                                                                                  ("Chars", "CharIndices", "slice::Iter", "Range<usize>", "vec::IntoIter", "IterMut", "array::IntoIter"))
+
+            def finite_next(tt):
+                if tt["k"] != "call" or not (callee_name(tt).endswith("::next") or callee_name(tt).endswith("::next_back")) or not tt["args"] or tt["args"][0]["k"] == "const":
+                    return False
+                ty = tt["args"][0]["place"]["ty"]
+                if not ty.startswith("&mut std::") and not ty.startswith("&mut core::"):
+                    return False
+                # unbounded std sources
+                return not any(x in ty for x in ("Cycle<", "Repeat<", "RepeatWith<", "RangeFrom<", "Successors<", "FromFn<", "io::Lines", "io::Bytes", "Incoming",
+                                                 "mpsc::", "io::Split"))
+            driven = finite_next(t)
             if not driven:
                 # the iterator call may sit in the first block of the body
                 body = b.loop_body(h, tails)
-                driven = any(b.blocks[x]["term"]["k"] == "call" and callee_name(b.blocks[x]["term"]).endswith("::next") and
-                             any(y in b.blocks[x]["term"]["args"][0]["place"]["ty"] for y in ("Chars", "CharIndices", "slice::Iter", "Range<usize>", "vec::IntoIter", "IterMut"))
-                             and all(b.dominates(x, tl) for tl in tails) for x in body)
+                driven = any(finite_next(b.blocks[x]["term"]) and all(b.dominates(x, tl) for tl in tails) for x in body)
             if not driven:
                 r4.violation("loop@%s#bb%d" % (fk.split("::")[-1], h), "a loop in %s is not driven by an in-memory iterator's next() (while/loop on a mutable condition)" % fk, site_of(b, h))
     r4.ok("loops", "%d loops in the reachable code, all driven by Iterator::next of in-memory iterators" % n_loops)
